@@ -60,6 +60,7 @@ type Contract struct {
 	Fresh    bool     // results are fresh allocations
 	Bounded  string
 	Instances []Clause
+	NoFrame  bool // no frame condition is stated or checked; callers havoc the whole heap
 	Guarantees []Clause // two-state relation on captured variables established by every invocation of a closure
 }
 
@@ -133,7 +134,7 @@ var clauseKeywords = map[string]bool{
 	"pred": true, "spec": true, "lemma": true, "uses": true, "arith": true, "prop": true,
 	"callsite": true, "closure": true, "extern": true, "assert": true, "trusted": true,
 	"inline": true, "noinline": true, "pure": true, "const": true, "opaque": true, "fresh": true,
-	"end": true, "bounded": true, "pattern": true, "base": true, "ghost": true, "instance": true, "guarantee": true,
+	"end": true, "bounded": true, "pattern": true, "base": true, "ghost": true, "instance": true, "guarantee": true, "noframe": true,
 }
 
 type rawClause struct {
@@ -357,6 +358,10 @@ func parseSpecFile(path string, pkgPath string) (*SpecFile, error) {
 				return nil, err
 			}
 			cur.Asserts = append(cur.Asserts, AssertSpec{Before: name, Ord: ord, C: cl})
+		case "noframe":
+			if cur != nil {
+				cur.NoFrame = true
+			}
 		case "guarantee":
 			if cur == nil {
 				return nil, fmt.Errorf("%s:%d: guarantee outside closure", path, rc.line)
